@@ -35,6 +35,8 @@ def sql_of(q):
         return f"SELECT p.w AS w, o.k AS k, o.v AS v FROM pub AS p {kind} JOIN orders AS o ON p.k = o.k"
     if s == "orders_users":
         return f"SELECT o.v AS v, u.g AS g FROM orders AS o {kind} JOIN users AS u ON o.user_id = u.id"
+    if s == "orders_users_k":
+        return f"SELECT o.v AS v, u.id AS id FROM orders AS o {kind} JOIN users AS u ON o.k = u.g"
     if s == "reduce_pub":
         return f"SELECT r.k AS k, r.s AS s, p.w AS w FROM (SELECT k, SUM(v) AS s FROM orders GROUP BY k) AS r {kind} JOIN pub AS p ON r.k = p.k"
     raise ValueError(s)
